@@ -132,10 +132,37 @@ _reg("C12", c12.run,
      level_note="Lean kernel; hand-written model of __post_init__/infer_types; histories with round trips rely on the oracle.")
 _reg("C13", c13.run)
 _reg("C14", c14.run)
-_reg("C15", c15.run)
+_reg("C15", c15.run, translator=("T1", "T3"),
+     theorems=["NirVerif.C15.modes", "NirVerif.C15.step_refines", "NirVerif.C15.refines", "NirVerif.C15.read_after_history"],
+     rule="Random histories (3-8, thorough 3-15 calls) over write(g_i)/read/read_version on one real path with graphs of "
+          "different sizes, kinds and metadata, path given as str or pathlib.Path; after every call the fd table, the file "
+          "hash across reads and the result of read are checked; finally rename and delete; plus BytesIO/temporary-file "
+          "targets written once and read 1-3 times.",
+     level_text="Kernel-checked refinement of the file-path state machine (h5py mode table, handle bookkeeping) to the "
+                "abstract register `content of the most recent write`: for every history every call leaves the handle count "
+                "at 0, reads leave the content unchanged and return what reading that content returns, and after a "
+                "successful write the content is exactly that write's file. The theorem is about the mode literals and "
+                "`with` usage the translator extracts from serialization.py (T3); changing them breaks `modes`.",
+     level_note="Lean kernel + T3; OS file-handle behaviour, truncation by libhdf5 and caching effects are outside the model "
+                "and exhibited only by the correspondence/oracle run on a real path.")
 _reg("C16", c16.run)
 _reg("C17", c17.run)
-_reg("C18", c18.run)
+_reg("C18", c18.run, translator=("T1", "T2"),
+     theorems=["NirVerif.C18.whitelist_documented", "NirVerif.C18.closed", "NirVerif.C18.closed_nonstring",
+               "NirVerif.C18.no_type", "NirVerif.C18.mandatory_table", "NirVerif.C18.construct_missing",
+               "NirVerif.C18.construct_extra", "NirVerif.C18.fromDict_generic"],
+     rule="Every public and private name of nir, nir.ir, nir.ir.graph, nir.serialization and builtins, case/whitespace "
+          "variants of the 18 whitelisted names and random unicode strings as `type` (full and bare dictionaries, top level "
+          "and nested, via dict and via file); every single mandatory-field deletion and a non-field insertion for every "
+          "primitive at nesting depth 0..2, via dict and via a raw-h5py file.",
+     level_text="Kernel-checked over the generated whitelist and field table: a `type` outside the 18 documented names (or "
+                "not a string, or missing) makes dict2NIRNode raise and construct nothing; the mandatory fields of every "
+                "class are exactly the documented parameters; a missing mandatory field or an extra non-field key makes "
+                "the constructor raise TypeError (never defaulted or ignored); for primitives without their own from_dict "
+                "reading a dictionary is exactly cls(**d). The translator additionally checks that str2NIRNode still is "
+                "`assert type in __all_ir; return globals()[type]`.",
+     level_note="Lean kernel + T1/T2; CPython keyword binding and `assert` (no -O) are modelled; nested/graph-level strictness "
+                "(class-specific from_dict of Input/Output/Flatten/NIRGraph) is covered by the correspondence run.")
 _reg("C19", c19.run,
      theorems=["NirVerif.C19.neuron_IF", "NirVerif.C19.neuron_LI", "NirVerif.C19.neuron_LIF", "NirVerif.C19.weight_rank",
                "NirVerif.C19.padding_string", "NirVerif.C19.padding_bytes", "NirVerif.C19.cuba_w_in"],
